@@ -163,6 +163,8 @@ class Node:
         self.expected_reach_min_rewards = 0
         self.num_states = num_states
         self.check_next_states()
+        # The node owns its transition list: pruning must not alter the caller's description.
+        self.next_states = list(self.next_states)
 
     def __eq__(self, other):
         return (
